@@ -332,7 +332,7 @@ fn edge_grid() -> Vec<Case> {
 
 pub fn run(ctx: &Ctx, rep: &mut Report) {
     engine::enumerate(ctx, rep, "edge-grid", edge_grid().into_iter(), check_case);
-    let cases = ctx.share(ctx.tier.pick(1_500_000, 160_000_000));
+    let cases = ctx.share(ctx.tier.pick(6_000_000, 160_000_000));
     engine::drive(ctx, rep, "random", case_strategy(), cases, check_case);
     let now_cases = (-59_903i64..=-59_897).chain(2_987..=2_993).chain([0, 100_000, -100_000]).flat_map(|diff| [true, false].map(move |voucher_ok| NowCase { diff, voucher_ok }));
     engine::enumerate(ctx, rep, "now", now_cases, check_now);
